@@ -92,10 +92,33 @@ def link_write_sites(program):
                 if is_raw_children(func, n.value, fields, aliases):
                     sites.append((func, n, _owner_of(func, n.value, fields), "item store on the children list"))
                 elif isinstance(n.slice, ast.Constant) and n.slice.value in fields:
+                    if isinstance(n.value, ast.Name) and _only_fresh_reaches(func, n):
+                        continue  # every definition that reaches this store is a private copy (dict(state), {...}, x.copy())
                     sites.append((func, n, n.slice.value, "string-keyed store (__dict__)"))
             elif isinstance(n, ast.AugAssign) and isinstance(n.target, ast.Name) and n.target.id in aliases:
                 sites.append((func, n, _owner_of(func, n.target, fields), "augmented assignment on the children list"))
     return sites
+
+
+def _only_fresh_reaches(func, sub):
+    """the subscripted name holds, at this statement, only values freshly built by dict(...)/{...}/.copy()"""
+    from .cfg import CFG
+    from .rules.depthmodel import reaching_defs
+    from .rules.common import cfg_nodes_containing
+    cfg = CFG(func.node, func.body, name=func.where)
+    hs = cfg_nodes_containing(cfg, sub)
+    if not hs:
+        return False
+    defs = reaching_defs(hs[0], sub.value.id)
+    if not defs:
+        return False
+    for d in defs:
+        v = d.ast.value
+        fresh = (isinstance(v, ast.Call) and isinstance(v.func, ast.Name) and v.func.id == "dict") or isinstance(v, (ast.Dict, ast.DictComp)) \
+            or (isinstance(v, ast.Call) and isinstance(v.func, ast.Attribute) and v.func.attr == "copy" and not v.args)
+        if not fresh:
+            return False
+    return True
 
 
 def _removal_helper(program, func, name):
